@@ -105,6 +105,23 @@ def replay(ob):
             if 1.5 in sp or (1, 2) in sp:
                 return {'reproduced': True, 'detail': 'an object without a space is a member of %r' % (sp,)}
         return {'reproduced': False, 'detail': 'membership coherent on the native pool'}
+    if ob['unit'].startswith('derived/pspace-element'):
+        odl, np = _odl()
+        cfg = ob.get('config') or {}
+        k, m = int(cfg.get('factors', 2)), int(cfg.get('sequence_length', 2))
+        facs = [odl.rn(2), odl.rn(3), odl.cn(2), odl.rn(4)]
+        for sp in (odl.ProductSpace(*facs[:k]), odl.ProductSpace(odl.rn(2), k), odl.ProductSpace(odl.rn(2), k, weighting=2.0)):
+            inp = [(sp[i] if i < k else sp[0]).one() for i in range(m)]
+            try:
+                res = sp.element(inp)
+            except (ValueError, TypeError):
+                if m == k:
+                    return {'reproduced': True, 'detail': '%r.element(<%d proper elements>) raised' % (sp, m)}
+                continue
+            if m != k or res not in sp or len(res.parts) != len(sp):
+                return {'reproduced': True, 'detail': '%r.element(<%d proper elements>) returned an "element" with %d parts (in space: %r) instead of raising' % (sp, m, len(res.parts), res in sp),
+                        'input': {'factors': k, 'sequence_length': m}}
+        return {'reproduced': False, 'detail': 'element() rejects sequences of the wrong length and wraps those of the right length natively'}
     if ob['unit'].startswith('derived/astype-chain'):
         odl, np = _odl()
         fl = ('float16', 'float32', 'float64', 'complex64', 'complex128')
